@@ -24,7 +24,7 @@ RULE = ("hostile connections: one hostile item (a mutated message or garbage) se
 ASSUMPTIONS = ["a peer that stalls forever mid-message on the single-threaded multiplex server without a timeout is documented behaviour; hostile clients always close (after <=50 ms)",
                "'still accepts / keeps receiving' = within a 10 s watchdog after the last hostile socket is closed",
                "BaseException-only exceptions (SystemExit ...) raised by methods are outside the statement ('Exception subclasses')"]
-REQUIRED_REACH = ["oneway_calls_served_behind_a_pile", "slow_oneway_leavers_ok", "discovery_responder_ok", "served_while_handshakes_stalled", "abandoned_streams_swept", "injected_yields", "hostile_connections", "witness_calls_ok", "post_attack_handshake_ok", "accounting_restored", "refused_by_full_pool", "error_replies_seen", "stream_guess_phases_ok"]
+REQUIRED_REACH = ["refused_lingerers_ok", "oneway_calls_served_behind_a_pile", "slow_oneway_leavers_ok", "discovery_responder_ok", "served_while_handshakes_stalled", "abandoned_streams_swept", "injected_yields", "hostile_connections", "witness_calls_ok", "post_attack_handshake_ok", "accounting_restored", "refused_by_full_pool", "error_replies_seen", "stream_guess_phases_ok"]
 SHARD_TIMEOUT = {"quick": 240, "thorough": 3000}
 
 
@@ -587,6 +587,53 @@ def slow_oneway_phase(fx, P, rec, cfgkey, pay):
             NAPS.pop(k, None)
 
 
+def refused_lingerers_phase(fx, P, rec, cfgkey, pay):
+    """clients whose connect attempt is REFUSED (garbage, another protocol version, an unknown object) and who then simply stay connected,
+    reading nothing, closing nothing: the refusal ends the daemon's business with them - their slots are given back at once and everybody
+    else is served (both server types: a refused connection is none of the single-threaded server's clients)"""
+    import socket as _s
+    ser = P.serializers.serializers["marshal"]
+    good = valid_connect(P, ser)
+    firsts = [b"\x00\x01 this is no pyro message at all \xff" * 2, good[:4] + b"\x7f\x7f" + good[6:], valid_connect(P, ser, objid="no-such-object-here"),
+              wire.encode(wire.INVOKE, 0, 1, ser.serializer_id, ser.dumpsCall("svc", "echo", ("x",), {}))]
+    base = fx.live_connection_count()
+    held = []
+    try:
+        for first in firsts:
+            c = _s.socket(_s.AF_UNIX if isinstance(fx.location, str) else _s.AF_INET, _s.SOCK_STREAM)
+            c.settimeout(5.0)
+            c.connect(fx.location)
+            c.sendall(first)
+            held.append(c)
+        rec.case(("refused-lingerers", cfgkey), nontrivial=True)
+        ok, err = 0, None
+        t0 = time.time()
+        while ok < 3 and time.time() - t0 < 12:
+            try:
+                with fx.proxy("svc", timeout=4.0) as p:
+                    tok = "beside-refused-%d" % ok
+                    if p.echo(tok) == tok:
+                        ok += 1
+            except Exception as x:
+                err = x
+        freed = fx.wait_until(lambda: fx.live_connection_count() <= base, 4.0)
+        if not fx.loop_alive():
+            rec.violation("request-loop-died", "request loop dead while refused clients stayed connected: %r" % (fx.loop_exc,), pay)
+            return False
+        if ok < 3 or not freed:
+            rec.violation("refused-clients-keep-slots", "4 clients whose connect attempt was refused (garbage / other protocol version / unknown object / INVOKE first) stayed connected without reading or closing: "
+                          "%d of 3 new clients were served within 12 s (last error %r); %s slot(s) occupied, %s before (cfg %s)" % (ok, err, fx.live_connection_count(), base, cfgkey), pay)
+            return False
+        rec.count("refused_lingerers_ok")
+        return True
+    finally:
+        for c in held:
+            try:
+                c.close()
+            except Exception:
+                pass
+
+
 def run_config(P, cfg, rec, r, n_items):
     fx = fixture.Fixture(servertype=cfg["servertype"], unix=cfg.get("unix", False), ssl=cfg.get("ssl", False), start_loop=not cfg.get("bc"), COMMTIMEOUT=cfg["commtimeout"], THREADPOOL_SIZE=cfg["pool"], THREADPOOL_SIZE_MIN=2, ITER_STREAMING=True,
                          ITER_STREAM_LINGER=0.2, ITER_STREAM_LIFETIME=1.0)      # abandoned streams expire (housekeeping) while the attack is still going on
@@ -732,6 +779,9 @@ def run_config(P, cfg, rec, r, n_items):
                 rec.violation("discovery-responder-silent-after-attack", "after the attack a GET_NSURI datagram got %r (5 tries)" % (answer,), dict(pay, last=last))
                 return
             rec.count("discovery_responder_ok")
+        if cfg["pool"] > 5 and not cfg.get("ssl"):
+            if not refused_lingerers_phase(fx, P, rec, cfgkey, dict(pay, last=last)):
+                return
         if cfg["pool"] > 5 and not cfg.get("ssl"):
             if not slow_oneway_phase(fx, P, rec, cfgkey, dict(pay, last=last)):
                 return
